@@ -163,6 +163,7 @@ type run struct {
 	fireOnce  sync.Once
 	fired     chan struct{}
 	split     int32 // bolt clients send frames in pieces (set after SIGHUP)
+	phaseMissed int32
 
 	mu      sync.Mutex
 	results []*result
@@ -202,8 +203,16 @@ func (r *run) gated(f func() error) (before bool, err error) {
 }
 
 // fire sends the signal (once), after the generated extra delay.
-func (r *run) fire() {
+func (r *run) fire() { r.fireAt(true) }
+
+// fireMissed sends the signal although the designated request ended before it reached its phase (the case is then inconclusive).
+func (r *run) fireMissed() { r.fireAt(false) }
+
+func (r *run) fireAt(reached bool) {
 	r.fireOnce.Do(func() {
+		if !reached {
+			atomic.StoreInt32(&r.phaseMissed, 1)
+		}
 		if r.holder != nil { // the held request must be at the upstream before the signal goes out
 			select {
 			case <-r.holder.reached:
@@ -282,7 +291,7 @@ func (r *run) client(id int) {
 		var h *hooks
 		if isDesig {
 			p = r.desig
-			h = &hooks{phase: r.cs.Phase, fire: r.fire, post: time.Duration(r.cs.PostMs) * time.Millisecond}
+			h = &hooks{phase: r.cs.Phase, fire: r.fire, miss: r.fireMissed, post: time.Duration(r.cs.PostMs) * time.Millisecond}
 		} else {
 			tok := fmt.Sprintf("k%d-c%d-%d", r.no, id, seq)
 			p = newPlan(tok, sizeOf(&rnd), sizeOf(&rnd), time.Duration(rnd.n(30))*time.Millisecond)
@@ -310,7 +319,7 @@ func (r *run) client(id int) {
 		res.EndMs = r.ms()
 		r.record(res)
 		if isDesig {
-			r.fire() // no-op when the phase already fired it; a designated request that failed early must not stall the case
+			r.fireMissed() // no-op when the phase already fired it; a designated request that ended early must not stall the case
 		}
 		seq++
 		if !ka || !res.ok() {
@@ -572,6 +581,7 @@ type outcome struct {
 	UpstreamBad []string  `json:"upstream_bad,omitempty"`
 	Dir         string    `json:"dir"`
 	StopConnMs  int64     `json:"stop_connection_seen_ms,omitempty"`
+	PhaseMissed bool      `json:"phase_missed,omitempty"`
 	probes      []probe
 }
 
@@ -753,6 +763,7 @@ func execute(cs Case) (o *outcome, r *run, infra string) {
 	r.mu.Unlock()
 	sort.SliceStable(o.Results, func(i, j int) bool { return o.Results[i].StartMs < o.Results[j].StartMs })
 	o.NRequests = len(o.Results)
+	o.PhaseMissed = atomic.LoadInt32(&r.phaseMissed) == 1
 	for _, proto := range protos {
 		o.UpstreamBad = append(o.UpstreamBad, r.ups[proto].badList()...)
 	}
